@@ -4,7 +4,7 @@ import json
 
 from driver import Check, main
 from fnexec import execute
-from weaverfam import maximal_histories, from_emission, random_program, random_restore_case
+from weaverfam import maximal_histories, from_emission, random_program, random_restore_case, shape_cover
 
 
 def run():
@@ -18,14 +18,23 @@ def run():
     nr = 12000 if c.thorough else 1600
     for i in range(nr):
         cases.append(random_program(c.rng) if i % 4 else random_restore_case(c.rng))
+    # shape / aliasing abstraction: the whole labelled state graph from TLC, one real program per transition
+    r2 = c.model("MC_WeaverShape", "MC_WeaverShape_%s.cfg" % c.tier, emits_all=False)
+    progs, covered, total_edges = shape_cover(r2.json_lines, c.rng, extra_walks=2000 if c.thorough else 200)
+    if covered != total_edges:
+        from driver import MachineryError
+        raise MachineryError("transition cover incomplete: %d of %d edges" % (covered, total_edges))
+    if not c.thorough:
+        progs = [p for i, p in enumerate(progs) if i % 8 == c.seed % 8]
+    cases += progs
     if c.replay_path:
         cases = [json.load(open(c.replay_path))["event"]["meta"]["case"]]
     evs = c.run_cases(cases, execute)
-    c.events = [{k: v for k, v in e.items() if k != "case"} for e in evs]
+    c.events = [{k: v for k, v in e.items() if k not in ("case", "meta")} for e in evs]
     kinds = set()
     for e, k in zip(c.events, cases):
         e["meta"] = {"case": k}
-        ops = k.get("ops") or (k["prefix"] + k["suffix"])
+        ops = k.get("ops") or k.get("acts") or (k["prefix"] + k["suffix"])
         kinds.update(o["k"] for o in ops)
         if len(ops) >= 3:
             c.count_nontrivial(json.dumps(k, sort_keys=True))
@@ -44,9 +53,13 @@ def run():
               "Weaver!OutOfScope), on random series of 4..14 start points growing up to ~80; after every call: container kinds, equal lengths, "
               "finiteness, strictly increasing abscissae, bytes of the caller's arrays (incl. grids handed to interpolate) before/after the "
               "call, bytes of the original before/after; restore: prefix program, restore_original, suffix program compared step by step "
-              "with the same suffix on a fresh Weaver(get_original()); plus a quarter (quick) / all (thorough) of the MC_Weaver histories. "
+              "with the same suffix on a fresh Weaver(get_original()); shape abstraction (MC_WeaverShape): all programs <= 10 operations over "
+              "abstract operation kinds explored by TLC, the labelled state graph emitted, a transition cover (every edge on one real "
+              "program; an eighth of it in the quick tier) replayed and validated step by step against the abstraction (lengths, which "
+              "caller buffers x / y share memory with, no caller buffer written); plus a quarter (quick) / all (thorough) of the MC_Weaver histories. "
               "non-trivial = >= 3 operations; distinct by case" % (len(kinds), ", ".join(sorted(kinds))))
-    c.coverage_extra = {"lattice_histories_from_tlc": lattice, "random_programs": len(cases) - lattice, "operation_kinds_seen": sorted(kinds),
+    c.coverage_extra = {"shape_graph_states": r2.distinct, "shape_graph_transitions": total_edges, "shape_programs_replayed": len(progs),
+                        "lattice_histories_from_tlc": lattice, "random_programs": len(cases) - lattice - len(progs), "operation_kinds_seen": sorted(kinds),
                         "steps_observed": sum(len(e.get("steps", [])) + len(e.get("a", [])) for e in evs)}
     c.assumptions = ["TLC 1.8, CommunityModules Json/IOUtils", "caller / original frame flags are byte comparisons of snapshots taken by the harness around every call",
                      "values after environment steps (spline, noise) are not recomputed by the specification; lengths, abscissae, reference and original still are",
